@@ -136,11 +136,7 @@ class MulticlassPrecisionE(_PRF):
 
 
 class MulticlassRecallE(_PRF):
-    # average="weighted" raises IndexError as soon as a class is absent from predictions and labels
-    # (finding C04-recall-weighted-absent-class); the model mirrors it, so algo and textbook spec
-    # differ there: the spec model is compared in the C04 part with that pattern singled out.
-    name, cls, model, fn_model = "MulticlassRecall", M.MulticlassRecall, "mcrec", "mcrec_fn"
-    spec_model_name = "mcrec_spec"
+    name, cls, model, fn_model, spec_model = "MulticlassRecall", M.MulticlassRecall, "mcrec", "mcrec_fn", "mcrec_spec"
     fn = staticmethod(Fn.multiclass_recall)
 
 
@@ -303,10 +299,14 @@ class TopKMultilabelAccuracyE(Entry):
     min_compute = 0
 
     def configs(self, rng, quick=True):
-        return [{"criteria": c, "k": k, "_w": w} for c in CRIT for k, w in ((2, 3), (2, 4), (3, 4), (2, 2))]
+        out = [{"criteria": c, "k": k, "_w": w} for c in CRIT for k, w in ((2, 3), (2, 4), (3, 4), (2, 2))]
+        return out + [{"criteria": c, "k": 2, "_w": 3, "_default_k": True} for c in ("exact_match", "overlap")]
 
     def kwargs(self, cfg):
-        return pub(cfg)
+        kw = pub(cfg)
+        if cfg.get("_default_k"):      # constructor / functional default k (= 2)
+            del kw["k"]
+        return kw
 
     def cfg_val(self, cfg):
         return [CRIT[cfg["criteria"]], cfg["k"]]
@@ -333,7 +333,7 @@ class TopKMultilabelAccuracyE(Entry):
 
     def functional(self, cfg, b):
         a, _ = self.args(cfg, b)
-        return Fn.topk_multilabel_accuracy(*a, **pub(cfg))
+        return Fn.topk_multilabel_accuracy(*a, **self.kwargs(cfg))
 
     def defined(self, cfg, batches):
         return True
